@@ -234,19 +234,16 @@ func (s *SFTPStore) Prune(ctx context.Context, ids map[ChunkID]struct{}) error {
 			continue
 		}
 		path := walker.Path()
-		if !strings.HasSuffix(path, CompressedChunkExt) { // Skip files without chunk extension
-			continue
-		}
 		// Skip compressed chunks if this is running in uncompressed mode and vice-versa
 		var sID string
 		if c.opt.Uncompressed {
 			if !strings.HasSuffix(path, UncompressedChunkExt) {
-				return nil
+				continue
 			}
 			sID = strings.TrimSuffix(filepath.Base(path), UncompressedChunkExt)
 		} else {
 			if !strings.HasSuffix(path, CompressedChunkExt) {
-				return nil
+				continue
 			}
 			sID = strings.TrimSuffix(filepath.Base(path), CompressedChunkExt)
 		}
@@ -259,7 +256,9 @@ func (s *SFTPStore) Prune(ctx context.Context, ids map[ChunkID]struct{}) error {
 		// See if the chunk we're looking at is in the list we want to keep, if not
 		// remove it.
 		if _, ok := ids[id]; !ok {
-			if err = s.RemoveChunk(id); err != nil {
+			// Use the connection we already hold, taking another one from the
+			// pool here would block forever if there's only one
+			if err = c.client.Remove(c.nameFromID(id)); err != nil {
 				return err
 			}
 		}
